@@ -410,6 +410,18 @@ ShiftCall(c, off) ==
       [] c.op = "set_top_def" -> [c EXCEPT !.n = @ + off.N, !.d = @ + off.D]
 CmpOff == LET s1 == ApplySeqX(Empty, CmpDesign) IN [k \in Kinds |-> CountOf(s1, k)]
 CmpInit == CmpDesign \o [j \in DOMAIN CmpDesign |-> ShiftCall(CmpDesign[j], CmpOff)]
+(* the same design with two assign statements (two instances of SDN_VERILOG_ASSIGNMENT_1, named as the Verilog reader does *)
+(* them; s2's input is free, so a connection can be moved from one to the other) and with cells leaf / Leaf that differ  *)
+(* in case only                                                                                                          *)
+CmpDesignA == SubSeq(CmpDesign, 1, Len(CmpDesign) - 1) \o <<
+                [op |-> "set_item", kind |-> "D", x |-> 4, key |-> "name", val |-> "Leaf"],
+                Ccreate("LD", 1, "SDN_VERILOG_ASSIGNMENT_1", 0), Ccreate("DP", 5, "i", 1), Ccreate("DP", 5, "o", 1),
+                Csetdir(8, 2), Csetdir(9, 3),
+                Cchild(3, "SDN_VERILOG_ASSIGNMENT_1_0", 5), Cchild(3, "SDN_VERILOG_ASSIGNMENT_1_1", 5),
+                Cconnect(3, OPin(5, 9)), Cconnect(4, OPin(5, 10)), Cconnect(4, OPin(6, 9)), Cconnect(3, OPin(6, 10)),
+                Csettopdef(1, 3) >>
+CmpOffA == LET s1 == ApplySeqX(Empty, CmpDesignA) IN [k \in Kinds |-> CountOf(s1, k)]
+CmpInitA == CmpDesignA \o [j \in DOMAIN CmpDesignA |-> ShiftCall(CmpDesignA[j], CmpOffA)]
 Cmp(a, b) == [op |-> "compare", a |-> a, b |-> b]
 Seq2(e, a, b) == [op |-> "seq", calls |-> <<e, Cmp(a, b)>>]
 CompareCands(s) ==
@@ -438,8 +450,17 @@ CompareCands(s) ==
                      <<w, w2, r>> \in {<<ww, w3, rr>> \in side.W \X side.W \X AllRefs(s) :
                          /\ ww # w3 /\ s.wireCable[ww] = s.wireCable[w3] /\ rr.k # "p" /\ WireOfRef(s, rr) = ww
                          /\ s.wirePins[ww] # <<>> /\ s.wirePins[ww][Len(s.wirePins[ww])] = rr}}
+        \* two instances of one cell exchange the connections of the same pin (each takes the other's place in the wire's list)
+        swaps == {<<[op |-> "disconnect", w |-> p[1], pin |-> p[3]], [op |-> "disconnect", w |-> p[2], pin |-> p[4]],
+                    [op |-> "connect", w |-> p[1], pin |-> p[4], pos |-> IndexIn(s.wirePins[p[1]], p[3]) - 1],
+                    [op |-> "connect", w |-> p[2], pin |-> p[3], pos |-> IndexIn(s.wirePins[p[2]], p[4]) - 1]>> :
+                     p \in {<<w1, w2, r1, r2>> \in side.W \X side.W \X AllRefs(s) \X AllRefs(s) :
+                         /\ w1 # w2 /\ r1.k = "o" /\ r2.k = "o" /\ r1.i < r2.i /\ r1.q = r2.q
+                         /\ s.instRef[r1.i] = s.instRef[r2.i]
+                         /\ WireOfRef(s, r1) = w1 /\ WireOfRef(s, r2) = w2}}
     IN {Cmp(1, 2), Cmp(2, 1),
         [op |-> "seq", calls |-> <<Cclone("N", 1), Cmp(1, 3)>>], [op |-> "seq", calls |-> <<Cclone("N", 1), Cmp(3, 1)>>]}
+       \cup {[op |-> "seq", calls |-> <<m[1], m[2], m[3], m[4], Cmp(1, 2)>>] : m \in swaps}
        \cup {Seq2(e, 1, 2) : e \in edits} \cup {Seq2(e, 2, 1) : e \in edits}
        \cup {[op |-> "seq", calls |-> <<m[1], m[2], Cmp(1, 2)>>] : m \in moves \cup hops}
 
@@ -506,6 +527,9 @@ ScopeTable ==
     eblif_rt |-> EblifScope({"eblif_rt"}),
     eblif_names |-> [EblifScope({"eblif_read", "eblif_rt"}) EXCEPT !.init = EblifNamesInit, !.ops = {"b:connect", "props:I"},
                        !.max = [N |-> 1, L |-> 2, D |-> 6, P |-> 12, C |-> 11, I |-> 5, Q |-> 14, W |-> 14]],
+    \* model ports listed under .inputs AND .outputs (inout): a bus and a scalar one
+    eblif_inout |-> [EblifScope({"eblif_read", "eblif_rt"}) EXCEPT
+                       !.init = EblifInit \o << [op |-> "set_dir", x |-> 6, ival |-> 1], [op |-> "set_dir", x |-> 7, ival |-> 1] >>],
     eblif_latch |-> [EblifScope({"eblif_read"}) EXCEPT !.init = EblifLatchInit, !.ops = {"b:connect"}],
     eblif_latch_rt |-> [EblifScope({"eblif_rt"}) EXCEPT !.init = EblifLatchInit, !.ops = {"b:connect"}],
     vlog_read |-> VlogScope({"vlog_read"}),
@@ -535,6 +559,13 @@ ScopeTable ==
                                                                         [op |-> "set_attr", kind |-> "C", x |-> 1, key |-> "downto", val |-> FALSE],
                                                                         [op |-> "set_attr", kind |-> "C", x |-> 3, key |-> "downto", val |-> FALSE] >>],
     edif_rt1 |-> [FmtScope({"edif_rt"}) EXCEPT !.init = FmtInit1],
+    \* names that were met ALONE in earlier naming scopes of the export (a cell foo, a port FOO) and are siblings later
+    \* (instances foo and FOO in one cell; nets foo and FOO)
+    edif_rt_memo |-> [FmtScope({"edif_rt"}) EXCEPT !.ops = {}, !.parents = {},
+                        !.init = FmtInit1 \o << [op |-> "set_name", kind |-> "D", x |-> 1, val |-> "foo"],
+                                                [op |-> "set_name", kind |-> "P", x |-> 3, val |-> "FOO"],
+                                                Cchild(4, "foo", 1), Cchild(4, "FOO", 1), Cchild(4, "u", 3),
+                                                Ccreate("DC", 4, "foo", 1), Ccreate("DC", 4, "FOO", 1) >>],
     edif_rt2 |-> [FmtScope({"edif_rt"}) EXCEPT !.init = FmtInit1 \o << Cchild(3, "u", 1), Cchild(4, "u", 3), Cchild(4, "v", 1) >>],
     edif_rt3 |-> [FmtScope({"edif_rt"}) EXCEPT !.init = FmtInit3, !.parents = {1, 4}],
     \* sibling instances and sibling cells whose names differ only in case, the lower-case one declared first
@@ -546,6 +577,8 @@ ScopeTable ==
                                                   [op |-> "set_name", kind |-> "D", x |-> 2, val |-> "Leaf"] >>],
     edif_read2 |-> [FmtScope({"edif_read"}) EXCEPT !.init = FmtInit1 \o << Cchild(3, "u", 1), Cchild(4, "u", 3), Cchild(4, "v", 1) >>],
     compare |-> [init |-> CmpInit, ops |-> {}, max |-> MaxAll(0), names |-> {}, vals |-> {}, pos |-> {NoPos},
+                 createN |-> {0}, queries |-> {"C20"}, walk |-> FALSE],
+    compare_assign |-> [init |-> CmpInitA, ops |-> {}, max |-> MaxAll(0), names |-> {}, vals |-> {}, pos |-> {NoPos},
                  createN |-> {0}, queries |-> {"C20"}, walk |-> FALSE],
     query |-> QScope,
     \* the netlist's naming policy was dropped (del netlist[".NS"]): there is no index, exact lookups must scan
